@@ -3,6 +3,7 @@
 //         -> "<standalone outcome per candidate> | <selection>"
 //            sym standalone: "ok:<breakpad id>" | "err";  selection: "sel:<breakpad id>:<location>" | "err"
 //            bin standalone: "ok:<debug id|->:<code id|->" | "err";  selection: "sel:<debug id|->:<code id|->" | "err"
+//            a candidate "dyld=<cache file>=<dylib path>" is offered as CandidatePathInfo::InDyldCache; its standalone entry is the word "dyld"
 //   companion: <debuglink|sup> <main file> <first-level debug file | -> <companion file> <offset> <xor mask>
 //         -> "frames=<n> idmatch=<0|1>"   n = number of probed addresses for which debug-info frames were returned;
 //            idmatch: debuglink: crc32 of the (corrupted) companion equals the CRC in .gnu_debuglink; sup: its build id equals the .gnu_debugaltlink id
@@ -32,6 +33,16 @@ fn helper_with(cands: &[&str]) -> (MemHelper, Vec<String>) {
                 let l = format!("empty{}", i);
                 h.files.insert(l.clone(), Arc::new(Vec::new()));
                 l
+            }
+            path if path.starts_with("dyld=") => {
+                // "dyld=<cache file>=<dylib path>": the cache file is what gets loaded
+                let cache = path[5..].split('=').next().unwrap_or("");
+                if !h.files.contains_key(cache) {
+                    if let Ok(d) = std::fs::read(cache) {
+                        h.files.insert(cache.to_string(), Arc::new(d));
+                    }
+                }
+                path.to_string()
             }
             path => {
                 if !h.files.contains_key(path) {
@@ -69,6 +80,11 @@ pub fn run_cand(toks: &[&str]) -> String {
     let mut standalone = Vec::new();
     let dis = req_debug.map(MultiArchDisambiguator::DebugId);
     for l in &locs {
+        if l.starts_with("dyld=") {
+            // no standalone entry point exists for an image inside a shared cache: the generator states which image (and id) the cache holds under that path
+            standalone.push("dyld".into());
+            continue;
+        }
         if kind == "sym" {
             match block(sm.load_symbol_map_from_location(Loc(l.clone()), dis.clone())) {
                 Ok(m) => standalone.push(format!("ok:{}", m.debug_id().breakpad())),
